@@ -7,6 +7,7 @@
 
 #include "common/engine.hpp"
 #include "common/meshgen.hpp"
+#include "common/polygen.hpp"
 
 #include "local_mesh_refiner.hpp"
 #include "verif_hooks.hpp"
@@ -75,11 +76,26 @@ static rc::Gen<Case> genCase() {
         c.band_pos = *uniform(0.0, 1.0);
         c.pseed = (unsigned)*irange(1, 1 << 30);
         c.pmag = *rc::gen::oneOf(rc::gen::just(0.0), loguniform(1e-6, 1e2));
+        const bool ties = *irange(0, 9) == 0;
+        if (ties) {
+            // exact ties: a box with integer (times a power of two) coordinates has edges whose squared length is exact, and the band limit is
+            // put exactly ON one of those lengths (class 5: l_max, class 6: l_min). "Longer than" / "shorter than" are strict.
+            static const int S[][3] = {{3, 4, 3}, {3, 4, 6}, {6, 8, 5}, {5, 12, 4}, {1, 1, 1}, {2, 3, 4}, {4, 3, 12}};
+            const int* q = S[*irange(0, 6)];
+            const double sc = *rc::gen::element(1.0, 0.5, 0.25, 1.0 / 1048576, 64.0);
+            c.mesh = pg::triangulate(pg::box(q[0] * sc, q[1] * sc, q[2] * sc));
+            const double tx = *irange(-8, 8) * sc, ty = *irange(-8, 8) * sc, tz = *irange(-8, 8) * sc;
+            for (size_t i = 0; i < c.mesh.nn(); i++) c.mesh.xyz[3 * i] += tx, c.mesh.xyz[3 * i + 1] += ty, c.mesh.xyz[3 * i + 2] += tz;
+            c.shape = "integer box";
+            c.labels.clear();
+            for (size_t t = 0; t < c.mesh.nt(); t++) c.labels.push_back((unsigned)*irange(0, 2));
+            c.band_class = *rc::gen::element(5, 6);
+        }
         int np = *irange(1, 4);
         for (int i = 0; i < np; i++) {
             PassSpec p;
             p.swap = *irange(0, 1);
-            p.field = i == 0 ? *rc::gen::element(0, 0, 0, 3) : *irange(0, 3);
+            p.field = i == 0 ? (ties ? 0 : *rc::gen::element(0, 0, 0, 3)) : *irange(0, 3);
             p.seed = (unsigned)*irange(1, 1 << 30);
             p.amp = *uniform(0.0, 1.0);
             for (double& v : p.ax) v = *uniform(-1, 1);
@@ -159,8 +175,26 @@ static std::string run(const Case& k, vf::Ctx& ctx) {
         case 3: lmin = (double)(emed * (0.4 + 0.3 * k.band_pos)); break;
         default: lmin = (double)(emed * (0.7 + 0.4 * k.band_pos)); break;
     }
+    double lmax = 3 * lmin;
+    if (k.band_class >= 5) {
+        // band limit exactly on an edge length: candidates are the edges whose squared length (the code's own formula) has an exact root
+        std::vector<double> cand;
+        for (size_t t = 0; t < m0.nt(); t++)
+            for (int j = 0; j < 3; j++) {
+                const unsigned a = m0.tri[3 * t + j], b = m0.tri[3 * t + (j + 1) % 3];
+                const double dx = m0.xyz[3 * a] - m0.xyz[3 * b], dy = m0.xyz[3 * a + 1] - m0.xyz[3 * b + 1], dz = m0.xyz[3 * a + 2] - m0.xyz[3 * b + 2];
+                const double l2 = dx * dx + dy * dy + dz * dz, r = std::sqrt(l2);
+                if (r * r == l2) cand.push_back(r);
+            }
+        std::sort(cand.begin(), cand.end());
+        cand.erase(std::unique(cand.begin(), cand.end()), cand.end());
+        if (cand.empty()) return "";
+        const double r = cand[std::min(cand.size() - 1, (size_t)(k.band_pos * cand.size()))];
+        if (k.band_class == 5) lmax = r, lmin = r / 3;
+        else lmin = r, lmax = 3 * r;
+        ctx.count(k.band_class == 5 ? "band_l_max_exactly_on_an_edge_length" : "band_l_min_exactly_on_an_edge_length");
+    }
     if (!(lmin > 0)) return "";
-    const double lmax = 3 * lmin;
     auto type = ct::default_cell_type(3);
     ct::CellScope scope;
     std::shared_ptr<epithelial_cell> c;
